@@ -77,7 +77,7 @@ CHECKS = {
     design="§3 C12"),
  "C10": dict(
     technique="bounded symbolic execution (CrossHair/z3): the real parse -> sanitize -> serialize -> re-parse pipeline on inputs composed by symbolic index from mutation-XSS shaped pieces with symbolic options, re-parsed tree checked against the sanitizer's allow-lists; composition with C09 and C08",
-    text="For every input composed of a fragment container, two context openers (32: foreign content, integration points, raw-text / RCDATA elements, noscript, tables, select, template, plaintext ...; quick: 32 x 3, thorough: 32 x 16 in 3 containers) and one of 42 payloads (attribute-value breakouts of raw-text elements, comments, CDATA, foreign-content breakouts, obfuscated javascript: URLs, backticks, NUL ...), with optional-tag omission, quoting mode, scripting of both parses and the re-parse mode (same container / div / document) symbolic: "
+    text="For every input composed of a fragment container, two context openers (32: foreign content, integration points, raw-text / RCDATA elements, noscript, tables, select, template, plaintext ...; quick: 32 x 3, thorough: 32 x 16 in 3 containers) and one of 48 payloads (doubly-encoded references in unquoted values, several forbidden URLs on one element, attribute-value breakouts of raw-text elements, comments, CDATA, foreign-content breakouts, obfuscated javascript: URLs, backticks, NUL ...), with optional-tag omission, quoting mode, scripting of both parses and the re-parse mode (same container / div / document) symbolic: "
          "every element, attribute, URL scheme (browser rule R6), data: content type and style value of the RE-PARSED tree is on the sanitizer's allow-lists and no comment reappears. Plus the concrete lemma that no allow-listed element is written raw but parsed as data or vice versa.",
     note="Inputs are instances of the piece grammar only; one listed known finding (namespace confusion after an escaped integration point) is the single problem class ignored. " + NOTE_COMMON,
     design="§3 C10"),
